@@ -69,7 +69,7 @@ Lemma np_stage1_val M N cc p q :
     np_stage1 M N None cc = Some ((p, q), (qmod (qN p + dx) M, qmod (qN q + dy) N)).
 Proof.
   intros HM HN Hu.
-  pose proof (argmax2_unique (@masked_uniq M N None cc p q Hu I)) as Harg.
+  pose proof (argmax2o_unique (@masked_uniq M N None cc p q Hu I)) as Harg.
   destruct Hu as (Hp & Hq & H).
   destruct (prv_props HM Hp) as [P1 P2]. destruct (prv_props HN Hq) as [Q1 Q2].
   destruct (nxt_props HM Hp) as [P3 P4]. destruct (nxt_props HN Hq) as [Q3 Q4].
@@ -79,7 +79,7 @@ Proof.
   assert (L4 : (cc p (nxt N q) < cc p q)%Q) by (apply H; auto; intros C; inversion C; auto).
   destruct (parab_peak L1 L3) as (dx & Hdx & _). destruct (parab_peak L2 L4) as (dy & Hdy & _).
   exists dx, dy. split; [exact Hdx|]. split; [exact Hdy|].
-  unfold np_stage1. rewrite Harg. cbv zeta. rewrite Hdx, Hdy. reflexivity.
+  unfold np_stage1. rewrite Harg. cbv zeta. rewrite (gparab_some Hdx), (gparab_some Hdy). reflexivity.
 Qed.
 
 (* t' is congruent to -t modulo n *)
@@ -164,9 +164,9 @@ Proof.
   apply H; try lia. intros C. injection C as C1 C2. apply Hne. f_equal; lia.
 Qed.
 
-Lemma win_refine_val W loc lx ly :
+Lemma win_refine_val g W loc lx ly :
   uniq_max W W loc lx ly ->
-  exists dx dy, win_refine W loc = Some ((lx, ly), (dx, dy)) /\
+  exists dx dy, win_refine g W loc = Some ((lx, ly), (dx, dy)) /\
     (((lx =? 0) || (W <=? lx + 1) || (ly =? 0) || (W <=? ly + 1))%bool = true -> dx = 0%Q /\ dy = 0%Q) /\
     (((lx =? 0) || (W <=? lx + 1) || (ly =? 0) || (W <=? ly + 1))%bool = false ->
        parab (loc (lx - 1) ly) (loc lx ly) (loc (lx + 1) ly) = Some dx /\
@@ -183,19 +183,19 @@ Proof.
     assert (L3 : (loc (lx + 1)%nat ly < loc lx ly)%Q) by (apply H; try lia; intros C; inversion C; lia).
     assert (L4 : (loc lx (ly + 1)%nat < loc lx ly)%Q) by (apply H; try lia; intros C; inversion C; lia).
     destruct (parab_peak L1 L3) as (dx & Hdx & _). destruct (parab_peak L2 L4) as (dy & Hdy & _).
-    exists dx, dy. rewrite Hdx, Hdy. split; [reflexivity|]. split; [discriminate | auto].
+    exists dx, dy. rewrite (par_some g Hdx), (par_some g Hdy). split; [reflexivity|]. split; [discriminate | auto].
 Qed.
 
-Lemma win_refine_swap W loc loc' lx ly :
+Lemma win_refine_swap g W loc loc' lx ly :
   uniq_max W W loc lx ly -> win_reflected W loc loc' ->
   exists dx dy dx' dy',
-    win_refine W loc = Some ((lx, ly), (dx, dy)) /\
-    win_refine W loc' = Some ((W - 1 - lx, W - 1 - ly), (dx', dy')) /\
+    win_refine g W loc = Some ((lx, ly), (dx, dy)) /\
+    win_refine g W loc' = Some ((W - 1 - lx, W - 1 - ly), (dx', dy')) /\
     dx' ==q (- dx)%Q /\ dy' ==q (- dy)%Q.
 Proof.
   intros Hu Hr. pose proof (uniq_max_win_reflect Hu Hr) as Hu'.
-  destruct (win_refine_val Hu) as (dx & dy & R1 & Ed & Ne).
-  destruct (win_refine_val Hu') as (dx' & dy' & R1' & Ed' & Ne').
+  destruct (win_refine_val g Hu) as (dx & dy & R1 & Ed & Ne).
+  destruct (win_refine_val g Hu') as (dx' & dy' & R1' & Ed' & Ne').
   exists dx, dy, dx', dy'. split; [exact R1|]. split; [exact R1'|].
   destruct Hu as (Hx & Hy & _). unfold win_reflected in Hr.
   set (lx' := W - 1 - lx) in *. set (ly' := W - 1 - ly) in *.
@@ -268,7 +268,7 @@ Proof.
     split; apply centre_negc; assumption.
   - assert (Hup2 : 2 <= up) by lia. destruct (Hw Hup2) as [Hsw Hum].
     destruct (Hum x0 y0) as (lx & ly & Hul).
-    destruct (win_refine_swap Hul (Hsw x0 y0 x0' y0' Nx Ny)) as (dx & dy & dx' & dy' & R1 & R1' & Ex & Ey).
+    destruct (win_refine_swap true Hul (Hsw x0 y0 x0' y0' Nx Ny)) as (dx & dy & dx' & dy' & R1 & R1' & Ex & Ey).
     rewrite R1, R1'. destruct Hul as (Hlx & Hly & _).
     eexists _, _, _, _. split; [reflexivity|]. split; [reflexivity|].
     split; apply centre_negc; auto; apply negc_offset; auto; lia.
@@ -295,7 +295,7 @@ Proof.
   destruct (np_stage1_val HM HN Hu) as (d0x & d0y & _ & _ & S1).
   set (x0 := qmod (qN p + d0x) M) in *. set (y0 := qmod (qN q + d0y) N) in *.
   destruct (Hw x0 y0) as (lx & ly & Hul).
-  destruct (win_refine_val Hul) as (dx & dy & R1 & Ed & Ne).
+  destruct (win_refine_val true Hul) as (dx & dy & R1 & Ed & Ne).
   exists x0, y0, lx, ly, dx, dy. split; [exact S1|]. split; [exact Hul|].
   split.
   - unfold np_shift. rewrite S1. destruct (Nat.leb_spec up 1) as [C|_]; [lia|]. rewrite R1. reflexivity.
